@@ -69,7 +69,7 @@ def gen_tree(rng, depth):
     if k == "oct":
         return ("oct", bytes(rng.randrange(256) for _ in range(rng.choice([0, 1, 5, 127, 128, 130]))))
     if k == "utf8":
-        return ("utf8", rng.choice(["", "SID", "S-1-5-18", "dömäin", "\U0001F600x"]))
+        return ("utf8", rng.choice(["", "SID", "S-1-5-18", "dömäin", "\U0001F600x", "\ufeffSID", "\ufeff", "S\ufeff", "\ufffeS"]))
     if k == "oid":
         return ("oid", rng.choice(["1.2.840.113549.1.7.3", "2.16.840.1.101.3.4.1.45", "0.0", "1.3.0.0.1", "2.39.4294967296.1", "1.2.0.840"]))
     if k == "bool":
@@ -303,9 +303,13 @@ def run(ctx):
         cases.append((f"packbool {int(v)}", r))
         enc = bytes.fromhex(r[3:])
         cases.append((f"readbool {hx(enc)}", call(a._read_asn1_boolean, enc, fmt=lambda r: f"{int(r[0])} {r[1]}")))
-    for s in ("", "SID", "S-1-5-21-1-2-3-1103", "héllo", "日本語", "😀", "a\x00b"):
+    for s in ("", "SID", "S-1-5-21-1-2-3-1103", "héllo", "日本語", "😀", "a\x00b", "\ufeffSID", "\ufeff", "\ufeff\ufeffx", "x\ufeff", "\ufffe"):
         enc = a._pack_asn1_utf8_string(s)
-        cases.append((f"readutf8 {hx(enc)}", call(a._read_asn1_utf8_string, enc, fmt=lambda r: f"{hx(r[0].encode('utf-8'))} {r[1]}")))
+        ru = call(a._read_asn1_utf8_string, enc, fmt=lambda r: f"{hx(r[0].encode('utf-8'))} {r[1]}")
+        cases.append((f"readutf8 {hx(enc)}", ru))
+        # (U+FEFF is an ordinary character of a UTF8String: no signature sniffing)
+        if enc != b"\x0c" + der_len(len(s.encode("utf-8"))) + s.encode("utf-8") or ru != f"ok {hx(s.encode('utf-8'))} {len(enc)}":
+            ctx.violation("UTF8String does not round-trip", {"string": s.encode("unicode_escape").decode()}, ru[:80], f"ok {hx(s.encode('utf-8'))} {len(enc)}")
 
     # --- malformed reader inputs ---------------------------------------------------------------
     readers = [("readint", a._read_asn1_integer, lambda r: f"{r[0]} {r[1]}"),
@@ -386,5 +390,9 @@ def replay(ctx, payload):
         back = [read_tree(r, t) for t in forest]
         print("  read back", back, "left", hx(bytes(r.get_remaining_data())))
         return back == forest and not r.get_remaining_data()
-    print("replay input:", v)
-    return False
+    print("replay input:", v, "(re-running the oracle sweep that found it)")
+    c2 = type(ctx)(ctx.prop, "quick", ctx.seed)
+    run(c2)
+    for x in c2.violations[:5]:
+        print(" ", x["what"], x["input"], str(x["observed"])[:80])
+    return not c2.violations
